@@ -2,7 +2,9 @@
   Model of pypyr's command line and argument-to-context contract (C18).
 
   Mirrors, as the code is now:
-    * `pypyr.cli.main` (the `try/except` ladder and its return values), `pypyr.__main__.main`
+    * `pypyr.cli.main` (the `try/except` ladder and its return values; the three calls it makes after
+      argument parsing - `config.init()`, `set_root_logger(…)`, `pipelinerunner.run(…)` - each of which
+      may raise, and where each sits relative to the `try`: §1b), `pypyr.__main__.main`
       (`sys.exit(main())`), `pypyr.pipeline.Pipeline.run` (the `except Stop` clause).
     * `pypyr.cli.get_parser` / `get_args`: argparse as configured there, on the argv grammar
       described at `classify` below (exact long options, no abbreviations, no `--opt=value`).
@@ -59,6 +61,125 @@ def sysExit : Option Nat → Nat
 
 /-- Exit status of the `pypyr` process given what escaped the pipeline run. -/
 def exitStatus (r : Raised) : Nat := sysExit (cliMain (pipelineRun r)).ret
+
+/-! ## 1b. The phases of `main`
+
+After `parsed_args = get_args(args)` the body of `pypyr.cli.main` is three calls, all inside one
+`try` whose handlers are `except KeyboardInterrupt: … return 128 + signal.SIGINT` and
+`except Exception as e: … return 255`:
+
+    try:
+        config.init()
+        pypyr.log.logger.set_root_logger(log_level=…, log_path=…)
+        pypyr.pipelinerunner.run(pipeline_name=…, …)
+    except KeyboardInterrupt: …
+    except Exception as e: …
+
+Each call may raise. *Where* each call sits relative to the `try` is data (`MainShape`), tied to the
+source by `Generated/CliMain.lean` (harness/extract_c18.py) and `Props/C18.lean: main_shape_agrees`.
+-/
+
+/-- A call `pypyr.cli.main` makes once the arguments are parsed. -/
+inductive Phase where
+  | configInit       -- `config.init()`: config-file look-up and merge
+  | setRootLogger    -- `pypyr.log.logger.set_root_logger(log_level=…, log_path=…)`
+  | runPipeline      -- `pypyr.pipelinerunner.run(…)`: load + run
+  deriving Repr, DecidableEq, Inhabited
+
+/-- Dotted name of the called function as written in the source. -/
+def Phase.callName : Phase → String
+  | .configInit => "config.init"
+  | .setRootLogger => "pypyr.log.logger.set_root_logger"
+  | .runPipeline => "pypyr.pipelinerunner.run"
+
+/-- Source order of the calls. -/
+def Phase.idx : Phase → Nat
+  | .configInit => 0
+  | .setRootLogger => 1
+  | .runPipeline => 2
+
+/-- What the body of each call raises (`.nothing`: it returns). For `.runPipeline` this is what
+    escapes `Pipeline.load_and_run_pipeline`; `Pipeline.run`'s `except Stop` is applied by
+    `callRaises`. -/
+abbrev Faults := Phase → Raised
+
+/-- What escapes the call itself, as `main` sees it. Only the runner sits below `Pipeline.run`. -/
+def callRaises (f : Faults) : Phase → Raised
+  | .runPipeline => pipelineRun (f .runPipeline)
+  | p => f p
+
+/-- Statements in sequence: the first call that raises ends the sequence. -/
+def seqRaises (f : Faults) : List Phase → Raised
+  | [] => .nothing
+  | p :: ps =>
+    match callRaises f p with
+    | .nothing => seqRaises f ps
+    | r => r
+
+/-- Where `main` makes its calls: before the `try` statement, or in its body. (There is no `else`,
+    no `finally` and nothing after the `try`; the extractor reports calls in any of these positions
+    and `main_shape_agrees` requires there to be none.) -/
+structure MainShape where
+  beforeTry : List Phase
+  inTry     : List Phase
+  deriving Repr, DecidableEq, Inhabited
+
+/-- How a call of `main` ends. -/
+inductive Outcome where
+  | returned (m : MainResult)   -- `sys.exit(main())` then gives `sysExit m.ret`
+  | escaped (r : Raised)        -- raised out of `main`: the interpreter prints a traceback; the status is
+                                -- the interpreter's (1; death by SIGINT for `KeyboardInterrupt`), not pypyr's
+  deriving Repr, DecidableEq, Inhabited
+
+/-- `main` for a given placement of the calls: anything raised before the `try` leaves `main`;
+    what the `try` body raises goes down the handler ladder `cliMain`. -/
+def mainOf (s : MainShape) (f : Faults) : Outcome :=
+  match seqRaises f s.beforeTry with
+  | .nothing => .returned (cliMain (seqRaises f s.inTry))
+  | r => .escaped r
+
+/-- `pypyr.cli.main` as it is: all three calls inside the `try`. -/
+def mainShape : MainShape := ⟨[], [.configInit, .setRootLogger, .runPipeline]⟩
+
+/-- The handler ladder of that `try`, as the extractor renders it: caught classes and the source
+    text of the returned expression. `cliMain` transliterates it (`128 + signal.SIGINT` = 130). -/
+def mainHandlers : List (List String × String) :=
+  [(["KeyboardInterrupt"], "128 + signal.SIGINT"), (["Exception"], "255")]
+
+/-- The `sys.stderr.write(…)` arguments of the `except Exception as e` handler that come before
+    anything else in it, source order; each argument as its f-string pieces:
+    `(false, text)` literal text, `(true, src)` a `{src}` replacement field. -/
+def mainStderrWrites : List (List (Bool × String)) :=
+  [[(false, "\n")],
+   [(false, "\x1b[91m"), (true, "type(e).__name__"), (false, ": "), (true, "str(e)"), (false, "\x1b[0;0m")],
+   [(false, "\n")]]
+
+/-- Evaluate those pieces for an exception of type name `ty` and `str(e) = msg`; a replacement
+    field the model does not know renders as `none`. -/
+def renderPieces (ty msg : String) : List (Bool × String) → Option String
+  | [] => some ""
+  | (false, t) :: rest => (renderPieces ty msg rest).map (t ++ ·)
+  | (true, src) :: rest =>
+    if src = "type(e).__name__" then (renderPieces ty msg rest).map (ty ++ ·)
+    else if src = "str(e)" then (renderPieces ty msg rest).map (msg ++ ·)
+    else none
+
+def renderWrites (ty msg : String) : List (List (Bool × String)) → Option String
+  | [] => some ""
+  | w :: ws => match renderPieces ty msg w, renderWrites ty msg ws with
+    | some a, some b => some (a ++ b)
+    | _, _ => none
+
+/-- `pypyr.cli.main` after argument parsing. -/
+def mainPhases (f : Faults) : Outcome := mainOf mainShape f
+
+/-- Exit status of the process; `none`: not a status pypyr chose (uncaught exception). -/
+def Outcome.status : Outcome → Option Nat
+  | .returned m => some (sysExit m.ret)
+  | .escaped _ => none
+
+/-- A fault in one phase only. -/
+def faultAt (p : Phase) (r : Raised) : Faults := fun q => if q = p then r else .nothing
 
 /-! ## 2. argv -/
 
@@ -264,6 +385,19 @@ def cliProcess (argv : List String) (runs : RunCall → Raised) : Option Nat :=
   | .outside => none
   | .usage => some 2
   | .ok a => some (exitStatus (runs (runCallOf a)))
+
+/-- The same with a fault possible in every phase of `main`: `cfg` / `log` are what `config.init()`
+    / `set_root_logger(log_level, log_path)` raise, `runs` what escapes the pipeline run for the
+    call `main` makes. -/
+def cliProcessPhases (argv : List String) (cfg : Raised) (log : Option Nat → Option String → Raised)
+    (runs : RunCall → Raised) : Option Outcome :=
+  match parseArgv argv with
+  | .outside => none
+  | .usage => some (.returned ⟨some 2, "", ""⟩)
+  | .ok a => some (mainPhases fun
+      | .configInit => cfg
+      | .setRootLogger => log a.log a.logpath
+      | .runPipeline => runs (runCallOf a))
 
 /-! ## 3. Context parsers -/
 
